@@ -220,6 +220,7 @@ func (state *State) ClearBlockRequests(ctx context.Context) {
 		len(state.blocksRequested), len(state.blocksToRequest))
 	state.blocksRequested = nil
 	state.blocksToRequest = nil
+	state.pendingBlockSize = 0 // no blocks are buffered anymore
 }
 
 func (state *State) ClearBlockRequestsAfter(ctx context.Context, hash bitcoin.Hash32) {
@@ -232,6 +233,12 @@ func (state *State) ClearBlockRequestsAfter(ctx context.Context, hash bitcoin.Ha
 		if requested.hash.Equal(&hash) {
 			if len(state.blocksRequested) > i {
 				logger.Info(ctx, "Removing %d requested blocks", len(state.blocksRequested)-i-1)
+				for _, removed := range state.blocksRequested[i+1:] {
+					if removed.block != nil {
+						// Block was already received, so it no longer counts as pending.
+						state.pendingBlockSize -= removed.size
+					}
+				}
 				state.blocksRequested = state.blocksRequested[:i+1]
 			} else {
 				logger.Info(ctx, "Removing %d requested blocks", 0)
